@@ -507,9 +507,14 @@ func MustUse(c *core.Ctx, rule string, pkgs []*packages.Package, typeclass, pers
 			if strings.HasPrefix(why, "persistent") {
 				// explicit in-place mode: a constant true handed to a bool parameter (the trie's `mutable` flag)
 				inPlace := false
-				for _, a := range call.Args {
-					if atv, ok := info.Types[a]; ok && atv.Value != nil && atv.Value.Kind() == constant.Bool && constant.BoolVal(atv.Value) {
-						inPlace = true
+				if callee := calleeOf(info, call); callee != nil {
+					csig := callee.Type().(*types.Signature)
+					for i, a := range call.Args {
+						if atv, ok := info.Types[a]; ok && atv.Value != nil && atv.Value.Kind() == constant.Bool && constant.BoolVal(atv.Value) && i < csig.Params().Len() {
+							if b, isBasic := csig.Params().At(i).Type().(*types.Basic); isBasic && b.Kind() == types.Bool {
+								inPlace = true
+							}
+						}
 					}
 				}
 				// a method that assigns to its own receiver's fields is a mutator (builder), not a persistent update
